@@ -898,20 +898,6 @@ func fromExpr(e ast.Expression) *N {
 	return nd(tBad, []int64{9})
 }
 
-// in program cases relational chains get their parentheses: the recorded defect C03-relational-assoc is
-// exercised (and attributed) by the expression cases, whose model predicts it
-func fixRel(n *N) *N {
-	for i, k := range n.Kids {
-		n.Kids[i] = fixRel(k)
-	}
-	if n.Tag == tBin && binops[n.Vals[0]].lvl == 9 {
-		if l := n.Kids[0]; l.Tag == tBin && binops[l.Vals[0]].lvl == 9 {
-			n.Kids[0] = nd(tParen, nil, l)
-		}
-	}
-	return n
-}
-
 // parse a program that should consist of one expression statement
 func parseExprText(src string) (n *N, errText string) {
 	defer func() {
@@ -1109,7 +1095,7 @@ func runC03(env *Env) {
 	g := &gen{env: env, r: env.Rng, cov: map[string]int{}}
 	r := env.Rng
 
-	// pinned witness of the listed finding first
+	// the witnesses of the repaired finding C03-relational-assoc first: they now expect the ES5 tree
 	g.exprCase(nd(tBin, []int64{10}, nd(tBin, []int64{10}, numLit("1"), numLit("2")), numLit("3")), "pinned", 0)
 	g.exprCase(nd(tBin, []int64{11}, nd(tBin, []int64{11}, numLit("3"), numLit("2")), numLit("1")), "pinned", 0)
 
@@ -1121,6 +1107,7 @@ func runC03(env *Env) {
 	}
 
 	g.pinnedPrograms()
+	g.pinFunctionCtor()
 
 	// every ordered pair of binary operators, both nestings
 	for i := range binops {
@@ -1291,6 +1278,21 @@ func (g *gen) pinnedPrograms() {
 		g.regressCase("for (x = a "+op+" [b in c][0];;) ;", prog(nd(tFor, nil, asg(id(3), nd(tBin, o, a, nd(tIdx, nil, &N{Tag: tArr, Kids: []*N{in(b, c)}}, numLit("0")))), none, none, &N{Tag: tEmpty})))
 		g.rejectCase("for (x = a " + op + " b in c;;) ;")
 		g.rejectCase("for (var x = a " + op + " b in c;;) ;")
+	}
+	// e62d085: relational operators are left-associative, in every slot
+	rels := []int{10, 11, 12, 13, 14, 15}
+	for i, o1 := range rels {
+		for j, o2 := range rels {
+			o3 := rels[(i+j)%6]
+			chain := func() *N {
+				return nd(tBin, []int64{int64(o3)}, nd(tBin, []int64{int64(o2)}, nd(tBin, []int64{int64(o1)}, id(0), id(1)), id(2)), id(3))
+			}
+			g.exprCase(chain(), "relational-chain", (i+j)%3)
+			g.progCase([]*N{nd(tIf, nil, chain(), es(chain())), nd(tVar, nil, decl(4, chain())), nd(tWhile, nil, nd(tCond, nil, chain(), chain(), chain()), &N{Tag: tEmpty})}, "relational-chain", (i+j)%2, 1+j%3)
+			if o1 != 15 && o2 != 15 && o3 != 15 {
+				g.progCase([]*N{nd(tForIn, nil, decl(3, chain()), id(4), &N{Tag: tEmpty}), nd(tFor, nil, asg(id(3), chain()), chain(), none, &N{Tag: tEmpty})}, "relational-chain", 0, 1)
+			}
+		}
 	}
 	g.regressCase("for (x = a < b, y = a > b;;) ;", prog(nd(tFor, nil, nd(tBin, []int64{0}, asg(id(3), nd(tBin, []int64{10}, a, b)), asg(id(4), nd(tBin, []int64{11}, a, b))), none, none, &N{Tag: tEmpty})))
 	// 14: the flags of a regular expression literal are part of the token; an identifier on the next line is not
